@@ -10,6 +10,7 @@ import (
 	"flag"
 	"fmt"
 	"math/rand"
+	"strings"
 
 	pf "github.com/weedbox/pokerface"
 )
@@ -152,11 +153,15 @@ func cmdHoldemStart(args []string) {
 	run := 7000000
 	type defect func(c *HCfg)
 	defects := map[string]defect{
-		"onePlayer":   func(c *HCfg) { c.Bank = c.Bank[:1]; c.Pos = [][]string{{"dealer"}} },
-		"zeroBank":    func(c *HCfg) { c.Bank[len(c.Bank)-1] = 0 },
-		"negBank":     func(c *HCfg) { c.Bank[0] = -5 },
-		"noDealer":    func(c *HCfg) { for i := range c.Pos { c.Pos[i] = remove(c.Pos[i], "dealer") } },
-		"noDeck":      func(c *HCfg) { c.DeckKind = "none"; c.Deck = nil },
+		"onePlayer": func(c *HCfg) { c.Bank = c.Bank[:1]; c.Pos = [][]string{{"dealer"}} },
+		"zeroBank":  func(c *HCfg) { c.Bank[len(c.Bank)-1] = 0 },
+		"negBank":   func(c *HCfg) { c.Bank[0] = -5 },
+		"noDealer": func(c *HCfg) {
+			for i := range c.Pos {
+				c.Pos[i] = remove(c.Pos[i], "dealer")
+			}
+		},
+		"noDeck": func(c *HCfg) { c.DeckKind = "none"; c.Deck = nil },
 	}
 	names := []string{"onePlayer", "zeroBank", "negBank", "noDealer", "noDeck"}
 	mk := func() HCfg {
@@ -348,4 +353,176 @@ func cmdHoldemDeal(args []string) {
 	}
 	b, _ := json.Marshal(M{"runs": len(hs), "lines": tw.lines})
 	fmt.Println(string(b))
+}
+
+// holdem-dealall (C10): EVERY seven-card situation of a reduced deck through real hands. For every five-card
+// board of the deck (cards named by -ranks x -suits) every pair of the remaining cards is some player's hole
+// cards in some hand: the pairs are packed greedily into hands of as many players as the remaining cards allow
+// (three cards are needed for the burns), each hand is played passively to the river on the constructed deck,
+// so that the flop, turn and river evaluation of every (hole cards, board) combination of the deck is published
+// by the real engine and recorded. -stride k -offset j: every k-th board only (quick tier).
+func cmdHoldemDealAll(args []string) {
+	fs := flag.NewFlagSet("holdem-dealall", flag.ExitOnError)
+	out := fs.String("o", "dealall.ndjson", "")
+	scripts := fs.String("scripts", "", "")
+	ranks := fs.String("ranks", "A234567", "")
+	suits := fs.String("suits", "SH", "")
+	req := fs.Int("req", 0, "required hole cards (0: any five of the seven)")
+	table := fs.String("table", "standard", "standard | short")
+	stride := fs.Int("stride", 1, "")
+	offset := fs.Int("offset", 0, "")
+	seed := fs.Int64("seed", 1, "")
+	fs.Parse(args)
+	r := rand.New(rand.NewSource(*seed))
+	var deck []string
+	for _, s := range *suits {
+		for _, k := range *ranks {
+			deck = append(deck, string(s)+string(k))
+		}
+	}
+	n := len(deck)
+	players := (n - 5 - 3) / 2
+	if players < 2 {
+		fatal("deck too small: %d cards", n)
+	}
+	if players > 9 {
+		players = 9
+	}
+	tw := newTraceWriter(*out)
+	var hs []*hand
+	boards, situations, run := 0, 0, 9000000
+	idx := make([]int, 5)
+	var rec func(start, k int)
+	playBoard := func(b []int) {
+		inBoard := map[int]bool{}
+		for _, x := range b {
+			inBoard[x] = true
+		}
+		var rest []int
+		for i := 0; i < n; i++ {
+			if !inBoard[i] {
+				rest = append(rest, i)
+			}
+		}
+		type pair struct{ a, b int }
+		var todo []pair
+		for i := 0; i < len(rest); i++ {
+			for j := i + 1; j < len(rest); j++ {
+				todo = append(todo, pair{rest[i], rest[j]})
+			}
+		}
+		covered := map[pair]bool{}
+		for len(covered) < len(todo) {
+			used := map[int]bool{}
+			var hand []pair
+			for _, p := range todo { // uncovered pairs first
+				if len(hand) < players && !covered[p] && !used[p.a] && !used[p.b] {
+					hand = append(hand, p)
+					used[p.a], used[p.b] = true, true
+				}
+			}
+			for _, p := range todo { // a hand needs two players: fill up with pairs seen before
+				if len(hand) < 2 && !used[p.a] && !used[p.b] {
+					hand = append(hand, p)
+					used[p.a], used[p.b] = true, true
+				}
+			}
+			for _, p := range hand {
+				if !covered[p] {
+					covered[p] = true
+					situations++
+				}
+			}
+			var free []int
+			for _, x := range rest {
+				if !used[x] {
+					free = append(free, x)
+				}
+			}
+			// the order in which the board comes (flop / turn / river) varies from hand to hand
+			bo := append([]int{}, b...)
+			r.Shuffle(len(bo), func(i, j int) { bo[i], bo[j] = bo[j], bo[i] })
+			var d []string
+			for _, p := range hand {
+				d = append(d, deck[p.a], deck[p.b])
+			}
+			d = append(d, deck[free[0]], deck[bo[0]], deck[bo[1]], deck[bo[2]], deck[free[1]], deck[bo[3]], deck[free[2]], deck[bo[4]])
+			for _, x := range free[3:] {
+				d = append(d, deck[x])
+			}
+			c := HCfg{Ante: 0, Dealer: 0, SB: 1, BB: 2, Limit: "no", HoleN: 2, ReqHole: *req, Ranking: *table, DeckKind: "std",
+				Pos: rolePositions(len(hand), r.Intn(len(hand)), false), Deck: d}
+			for range hand {
+				c.Bank = append(c.Bank, 1000)
+			}
+			run++
+			hs = append(hs, playToRiver(tw, run, c))
+		}
+	}
+	count := 0
+	rec = func(start, k int) {
+		if k == 5 {
+			if count%*stride == *offset%*stride {
+				boards++
+				playBoard(append([]int{}, idx...))
+			}
+			count++
+			return
+		}
+		for i := start; i < n; i++ {
+			idx[k] = i
+			rec(i+1, k+1)
+		}
+	}
+	rec(0, 0)
+	tw.close()
+	if *scripts != "" {
+		writeScripts(*scripts, hs)
+	}
+	b, _ := json.Marshal(M{"runs": len(hs), "lines": tw.lines, "deck_cards": n, "boards": boards, "boards_of_the_deck": count, "situations": situations,
+		"players_per_hand": players, "req": *req, "table": *table})
+	fmt.Println(string(b))
+}
+
+// playToRiver: nobody bets, nobody folds - every hand shows all three streets
+func playToRiver(tw *traceWriter, run int, cfg HCfg) *hand {
+	h := newHand(tw, run, cfg)
+	h.do(HOp{"Start", -1, 0})
+	for !h.closed() && h.steps < 400 {
+		s := h.g.GetState()
+		switch s.Status.CurrentEvent {
+		case "ReadyRequested":
+			h.do(HOp{"ReadyForAll", -1, 0})
+		case "AnteRequested":
+			h.do(HOp{"PayAnte", -1, 0})
+		case "BlindsRequested":
+			h.do(HOp{"PayBlinds", -1, 0})
+		case "RoundClosed":
+			h.do(HOp{"Next", -1, 0})
+		case "RoundStarted":
+			c := s.Status.CurrentPlayer
+			if c < 0 || c >= len(s.Players) || len(s.Players[c].AllowedActions) == 0 {
+				return h
+			}
+			done := false
+			for _, want := range []string{"check", "call", "pass", "allin"} {
+				for _, a := range s.Players[c].AllowedActions {
+					if a == want && !done {
+						h.do(HOp{strings.ToUpper(a[:1]) + a[1:], c, 0})
+						done = true
+					}
+				}
+			}
+			if !done {
+				return h
+			}
+		default:
+			return h
+		}
+	}
+	return h
+}
+
+func init() {
+	commands["holdem-dealall"] = cmdHoldemDealAll
 }
